@@ -45,6 +45,7 @@ fn general_gate(run: &mut Run, tier: Tier) {
         tuples.push(q);
     }
     // row emission
+    let init_rows = Prog::new(|_| Ok(())).run().map(|s| s.gates.len()).unwrap_or(4);
     let mut layouts = std::collections::HashSet::new();
     for q in &tuples {
         for pi in &pis {
@@ -70,14 +71,15 @@ fn general_gate(run: &mut Run, tier: Tier) {
                 let mut want = [zero(); 11];
                 want[..6].copy_from_slice(&q);
                 want[QARITH] = one();
-                let base = 2 + 4; // ZERO, ONE and the four dummy-gate witnesses precede user witnesses
+                // the four user witnesses are the last allocations (append_gate allocates none)
+                let base = s.witnesses.len() - 4;
                 let want_w = [base + wiring[0], base + wiring[1], base + wiring[2], base + wiring[3]];
                 let pi_rows: Vec<(usize, Fe)> = s.public_inputs.clone();
                 let want_pi: Vec<(usize, Fe)> = match pi {
                     Some(v) => vec![(s.gates.len() - 1, v)],
                     None => vec![],
                 };
-                if row.q != want || row.w != want_w || pi_rows != want_pi || s.gates.len() != 5 {
+                if row.q != want || row.w != want_w || pi_rows != want_pi || s.gates.len() != init_rows + 1 {
                     run.violation(
                         &format!("general-gate/emitted-row-differs/{}", if pi.is_some() { "pi" } else { "nopi" }),
                         &format!("append_gate emitted q={:?} w={:?} pi={:?}, documented row is q={:?} w={:?} pi={:?}", row.q.iter().map(hex).collect::<Vec<_>>(), row.w, pi_rows.iter().map(|(r, v)| (*r, hex(v))).collect::<Vec<_>>(), want.iter().map(hex).collect::<Vec<_>>(), want_w, want_pi.iter().map(|(r, v)| (*r, hex(v))).collect::<Vec<_>>()),
